@@ -548,6 +548,31 @@ def run(scenario, world):
                      'pairs %s: %r\n%s' % (pairs, r, r.tb), step)
             if len(pairs) > 1:
                 world.probe('multi_pair_selection')
+            # the covariate model on its own (a public class): after the
+            # same selection, and after a selection it REJECTS (an empty one
+            # raises), its count, names and accepted vector still agree
+            cm = chi.LinearCovariateModel(n_cov=max(1, pm.n_covariates()))
+            r = call(cm.set_population_parameters, pairs)
+            if not is_exc(r):
+                for bad in ([], [[0, 0], [0]]):
+                    rb = call(cm.set_population_parameters, bad)
+                    if not is_exc(rb):
+                        break
+                ncm = call(lambda: int(cm.n_parameters()))
+                nm_ = call(lambda: list(cm.get_parameter_names()))
+                if is_exc(ncm) or is_exc(nm_) or ncm != len(nm_):
+                    fail('covariate_model.count_names', 'after_rejected_call',
+                         'selection %s accepted, then an invalid selection '
+                         'rejected: n_parameters %s, names %s' % (
+                             pairs, short(ncm), short(nm_)), step)
+                v_ = call(cm.compute_population_parameters,
+                          np.full(ncm, 0.1), np.full((2, pm.n_dim()), 0.5),
+                          np.ones((2, cm.n_covariates())))
+                if is_exc(v_) and not ok_exc(v_):
+                    fail('covariate_model.accepts_vector', 'raises',
+                         'vector of length n_parameters() = %d: %r\n%s' % (
+                             ncm, v_, v_.tb), step)
+                world.probe('bare_covariate_model_checked')
             # the name of a covariate entry describes the population
             # parameter that entry acts on
             names = list(pm.get_parameter_names())
